@@ -143,6 +143,17 @@ class StubConfig:
     max_bond_dim = 1024
     extra_krylov_tolerance = 1e-3
     max_krylov_dim = 100
+    num_gpus_to_use = 0
+    optimize_qubit_ordering = False
+    interaction_cutoff = 0.0
+    log_level = 20
+    log_file = None
+    autosave_prefix = "verif_"
+    solver = "tdvp"
+    with_modulation = False
+    n_trajectories = 1
+    interaction_matrix = None
+    prefer_device_noise_model = False
 
     def __init__(self, world):
         self.w = world
